@@ -47,3 +47,88 @@ mod sasl {
         assert!(!matches!(code_of(mech.on_response(r)).unwrap(), SaslCode::Ok));
     }
 }
+
+#[cfg(kani)]
+mod helpers {
+    use fe2o3_amqp::verif_facade as f;
+
+    /// ASSUMED contract of session::consecutive_chunk_indices used by unit SESSION (bounded check on the real fn)
+    #[kani::proof]
+    #[kani::unwind(8)]
+    fn cci_session_contract() {
+        let n: usize = kani::any();
+        kani::assume(n <= 4);
+        let raw: [u32; 4] = kani::any();
+        // strictly ascending (precondition: is_consecutive computes right - left)
+        let mut i = 1;
+        while i < n { kani::assume(raw[i - 1] < raw[i]); i += 1; }
+        let ids = &raw[..n];
+        let r = f::session_consecutive_chunk_indices(ids);
+        // exactly the positions p in 1..n with ids[p] - ids[p-1] != 1, ascending
+        let mut expect = [0usize; 4];
+        let mut k = 0;
+        let mut p = 1;
+        while p < n { if ids[p] - ids[p - 1] != 1 { expect[k] = p; k += 1; } p += 1; }
+        assert!(r.len() == k);
+        let mut j = 0;
+        while j < k { assert!(r[j] == expect[j]); j += 1; }
+    }
+
+    /// receiver side: a new run starts where ids are not consecutive OR the per-transfer settle mode changes
+    #[kani::proof]
+    #[kani::unwind(8)]
+    fn cci_receiver_contract() {
+        let n: usize = kani::any();
+        kani::assume(n <= 3);
+        let ids: [u32; 3] = kani::any();
+        let modes: [Option<bool>; 3] = [kani::any(), kani::any(), kani::any()];
+        let mut i = 1;
+        while i < n { kani::assume(ids[i - 1] < ids[i]); i += 1; }
+        let mut infos = Vec::new();
+        let mut q = 0;
+        while q < n { infos.push((ids[q], modes[q])); q += 1; }
+        let r = f::receiver_consecutive_chunk_indices(&infos);
+        let mut k = 0;
+        let mut p = 1;
+        while p < n {
+            let brk = ids[p] - ids[p - 1] != 1 || modes[p] != modes[p - 1];
+            if brk { assert!(k < r.len() && r[k] == p); k += 1; }
+            p += 1;
+        }
+        assert!(r.len() == k);
+    }
+
+    /// ASSUMED contract of count_number_of_sections_and_offset used by unit REASM
+    #[kani::proof]
+    #[kani::unwind(10)]
+    fn count_sections_bounds() {
+        let n: usize = kani::any();
+        kani::assume(n <= 6);
+        let b: [u8; 6] = kani::any();
+        let (number, offset) = f::count_number_of_sections_and_offset(&b[..n]);
+        assert!(number as usize <= n);
+        assert!(offset as usize <= n);
+    }
+
+    /// chained-buffer reader: successive reads return the concatenation of the frame payloads, in order
+    #[kani::proof]
+    #[kani::unwind(10)]
+    fn chained_reader_is_concat() {
+        let b: [u8; 5] = kani::any();
+        let c1: usize = kani::any();
+        let c2: usize = kani::any();
+        kani::assume(c1 <= c2 && c2 <= 5);
+        let chunks = vec![b[..c1].to_vec(), b[c1..c2].to_vec(), b[c2..].to_vec()];
+        let a: usize = kani::any();
+        let d: usize = kani::any();
+        kani::assume(a <= 5 && d <= 5 && a + d <= 5);
+        let out = f::chained_reader_reads(chunks, &[a, d]);
+        assert!(out.len() == 2);
+        assert!(out[0].len() == a);
+        assert!(out[1].len() == d);
+        let mut i = 0;
+        while i < a { assert!(out[0][i] == b[i]); i += 1; }
+        let mut j = 0;
+        while j < d { assert!(out[1][j] == b[a + j]); j += 1; }
+    }
+}
